@@ -16,7 +16,7 @@ MANIFEST = {
              'change), C08_assign_unit_any_layout (_assign_from_iloc_by_unit, column part: exactly the addressed columns replaced, the r-th addressed '
              'column by value column r, every other column identical with its dtype), C08_insert_any_layout (Frame._insert). The key conversion inside '
              'the models is the kernel util.slice_to_ascending_slice REGENERATED from /repo on every run (C08_asc_slice_correct, '
-             'C08_model_uses_regenerated_kernel) and the retain_key_order / key_to_ascending_key decisions are constants regenerated from the AST '
+             'C08_model_uses_regenerated_kernel) and the retain_key_order / key_to_ascending_key / normalise-negatives / Boolean-array decisions are constants regenerated from the AST (C08_keys_made_ascending_by_position) '
              '(Gen/Gen_c08.v): changing either breaks the proofs before any case runs. C08_drop_exact / C08_set_exact / C08_assign_exact read the '
              'specifications position by position. Refuted/C08.v: vm_compute witnesses that the guard of the theorems is necessary (known findings). '
              'Correspondence: the models (result columns, dtypes AND block layout, error class) and the specifications are evaluated inside Coq on '
@@ -29,7 +29,7 @@ MANIFEST = {
              'the harness). Partial: assign by blocks (Frame values, get_block_match), the bloc forms, Series operations, relabel/rename and the label '
              'alignment of Series/Frame values have specification-level checks (impl vs S) but no implementation-model theorem; the dtype of an '
              'ASSIGNED column is compared with the model (resolve_dtype, regenerated) but is not part of the specification (C07). The refinement '
-             'theorems carry the guard walk_dom (list keys hold non-negative, pairwise different positions; slice step <> 0) and "at least one block".'),
+             'theorems carry the guard walk_dom (a list key denotes pairwise different positions after normalisation of the negative ones; slice step <> 0) and "at least one block".'),
     'technique': 'refinement proof (model of the block walk = specification on the flattened columns, for all layouts) + regenerated kernels/constants + differential correspondence evaluated in Coq',
 }
 PROPERTY_FILES = ['Properties/C08.v']
@@ -62,6 +62,7 @@ ASSUMPTIONS = ['Python int = Z, // and % = Z.div / Z.modulo (floor)',
 TRUSTED = ['NumPy broadcasting of an unlabelled value to the selection shape (np.broadcast_to in the harness)',
            'util.dtype_from_element called directly to obtain the dtype of the assigned value (input of the assign model)']
 EXHAUSTIVE = {'quick': False, 'thorough': True}
+GENERATED_FILES = ['Gen/Gen_c08.v']
 
 # ---------------------------------------------------------------------------------------------- regenerated decision table
 def generate(repo):
@@ -112,10 +113,59 @@ def generate(repo):
             if (isinstance(a0, ast.Subscript) and isinstance(a0.value, ast.Attribute) and a0.value.attr == 'key'
                     and isinstance(a0.slice, ast.Constant) and a0.slice.value == 1):
                 sorts = True
+    # ---- how the key is made ascending (fixes c80a0ec, dc30af2): is the argument of sorted() the key itself or the key
+    # with its negative positions normalised?  does a Boolean ndarray pass through unchanged?
+    def sorted_normalises(call_node, where):
+        if len(call_node.args) != 1:
+            raise ValueError(f'{where}: sorted() with {len(call_node.args)} arguments')
+        a = call_node.args[0]
+        if isinstance(a, ast.Name) and a.id == 'key':
+            return False
+        if (isinstance(a, ast.GeneratorExp) and isinstance(a.elt, ast.IfExp) and isinstance(a.elt.body, ast.BinOp)
+                and isinstance(a.elt.body.op, ast.Add) and len(a.generators) == 1
+                and isinstance(a.generators[0].iter, ast.Name) and a.generators[0].iter.id == 'key'):
+            return True
+        raise ValueError(f'{where}: unrecognised argument of sorted()')
+
+    def sorted_calls(node):
+        return [c for c in ast.walk(node) if isinstance(c, ast.Call) and isinstance(c.func, ast.Name) and c.func.id == 'sorted']
+
+    kbs = sorted_calls(method(tb, 'TypeBlocks', '_key_to_block_slices'))
+    if len(kbs) != 1:
+        raise ValueError(f'_key_to_block_slices: expected one sorted() call, found {len(kbs)}')
+    walk_norm = sorted_normalises(kbs[0], '_key_to_block_slices')
+    cu = parse('static_frame/core/container_util.py')
+    ktak = [n for n in cu.body if isinstance(n, ast.FunctionDef) and n.name == 'key_to_ascending_key']
+    if len(ktak) != 1:
+        raise ValueError('container_util.key_to_ascending_key not found')
+    list_norm = array_norm = bool_kept = None
+    for node in ktak[0].body:
+        if not isinstance(node, ast.If):
+            continue
+        src = ast.unparse(node.test)
+        if src == 'isinstance(key, list)':
+            sc = sorted_calls(node)
+            if len(sc) != 1:
+                raise ValueError('key_to_ascending_key: list branch without a single sorted()')
+            list_norm = sorted_normalises(sc[0], 'key_to_ascending_key')
+        elif src == 'key.__class__ is np.ndarray':
+            bool_kept = any(isinstance(n, ast.If) and ast.unparse(n.test) == 'key.dtype == bool'
+                            and len(n.body) == 1 and isinstance(n.body[0], ast.Return) and ast.unparse(n.body[0].value) == 'key'
+                            for n in node.body)
+            array_norm = any(isinstance(n, ast.Assign) and ast.unparse(n.targets[0]) == 'key' and ast.unparse(n.value).startswith('np.where(')
+                             and 'key + size' in ast.unparse(n.value) for n in node.body)
+            if not any(isinstance(n, ast.Return) and ast.unparse(n.value).startswith('np.sort(key') for n in node.body):
+                raise ValueError('key_to_ascending_key: ndarray branch does not return np.sort(key, ...)')
+    if None in (list_norm, array_norm, bool_kept):
+        raise ValueError('key_to_ascending_key: list / ndarray branches not found')
     b = lambda x: 'true' if x else 'false'
+    extra = (f'Definition block_slices_sorted_normalises_negatives : bool := {b(walk_norm)}.\n'
+             f'Definition ascending_key_list_normalises_negatives : bool := {b(list_norm)}.\n'
+             f'Definition ascending_key_array_normalises_negatives : bool := {b(array_norm)}.\n'
+             f'Definition ascending_key_boolean_array_unchanged : bool := {b(bool_kept)}.\n')
     text = ('(* GENERATED on every run by tools/sfv/props/c08.py:generate from static_frame/core/type_blocks.py and frame.py -- do not edit *)\n'
             + ''.join(f'Definition retain_key_order{name} : bool := {b(v)}.\n' for name, v in flags.items())
-            + f'Definition assign_iloc_column_key_made_ascending : bool := {b(sorts)}.\n')
+            + f'Definition assign_iloc_column_key_made_ascending : bool := {b(sorts)}.\n' + extra)
     return {'Gen/Gen_c08.v': text}
 
 
@@ -324,17 +374,8 @@ def small_keys(n, tier, rng, slices=True):
 
 
 # ---------------------------------------------------------------------------------------------- findings
-F_NEGLIST = 'C08-negative-positions-in-list-key'
 F_DROPALL = 'C08-drop-all-columns-with-rows'
 F_ZERO = 'C08-zero-columns'
-
-
-def asc_after_sorted(k, n):
-    '''True when sorted(raw key) denotes ascending positions (so the ascending block walk is sound)'''
-    if k.kind not in ('list', 'array'):
-        return True
-    ps = [x + n if x < 0 else x for x in sorted(k.v)]
-    return all(a <= b for a, b in zip(ps, ps[1:]))
 
 
 def call(fn):
@@ -402,9 +443,8 @@ def classify(op, ck, rk, m, nrows):
     """finding tags decided from the INPUT alone"""
     tags = {}
     cps, rps = ck.positions(m), rk.positions(nrows)
-    if ck.kind in ('list', 'array') and has_negative(ck) and not asc_after_sorted(ck, m):
-        tags['finding'] = F_NEGLIST
-    elif op == 'drop' and rps and (m == 0 or (cps is not None and len(set(cps)) == m)):
+    # list keys with negative positions out of positional order: fixed by c80a0ec, regression cases now
+    if op == 'drop' and rps and (m == 0 or (cps is not None and len(set(cps)) == m)):
         tags['finding'] = F_DROPALL
     elif op == 'mask' and m == 0:
         tags['finding'] = F_ZERO
@@ -485,7 +525,6 @@ def loc_key(k, labels, reorder=False):
 
 
 # ---------------------------------------------------------------------------------------------- assign
-F_BOOLSORT = 'C08-assign-iloc-boolean-array-column-key'
 
 ELEMS = [-5, 2.5, 'zz', None, True, 0]
 
@@ -559,12 +598,10 @@ RESOLVE = 'c08_resolve'
 
 def assign_tags(form, ck, rk, m, asarray_mask):
     tags = {'op': 'assign', 'form': form, 'ckind': ck.kind, 'rkind': rk.kind}
+    # negative positions in list keys (c80a0ec) and Boolean ndarray column keys through iloc (dc30af2) are fixed:
+    # their inputs stay in the strata as regression cases
     if m == 0:
         tags['finding'] = F_ZERO
-    elif ck.kind in ('list', 'array') and has_negative(ck) and not asc_after_sorted(ck, m):
-        tags['finding'] = F_NEGLIST
-    elif asarray_mask and sorted(ck.v) != list(ck.v):
-        tags['finding'] = F_BOOLSORT
     return tags
 
 
